@@ -341,6 +341,11 @@ func c14Plans(c *core.Ctx) []c14Plan {
 	for i := 0; i < base; i++ {
 		p := plans[i]
 		if p.Binary {
+			// bytes that are not valid UTF-8 must come back unchanged from InTotoRun, too (in either wrapper)
+			if i%3 == 0 {
+				p.Via = "InTotoRun"
+				add(p)
+			}
 			continue
 		}
 		switch i % 7 {
@@ -584,6 +589,31 @@ func c14Errors(c *core.Ctx, helper string) {
 			}
 		}
 	}
+	// an inspection whose command is empty must be reported as an error as well
+	for _, dsse := range []bool{false, true} {
+		for _, run := range [][]string{{}, nil} {
+			id := fmt.Sprintf("error/inspection with empty command/dsse=%v/nil=%v", dsse, run == nil)
+			if !c.Want(id) {
+				continue
+			}
+			layout := gen.NewLayout(nil, []intoto.Inspection{gen.Inspection("empty", run, nil, nil)}, nil)
+			var err error
+			c.Begin(id)
+			os.Chdir(c.WorkDir)
+			pk := c.Guard(id, "RunInspections", "empty run", func() { _, err = intoto.RunInspections(layout, "", false, dsse) })
+			c.End(id)
+			c.Eval(1)
+			if pk {
+				continue
+			}
+			if err == nil {
+				c.Violation("an inspection with an empty command is not reported as an error", id, map[string]any{"dsse": dsse})
+			} else {
+				n++
+				c.Class("error", "inspection-empty", dsse, run == nil)
+			}
+		}
+	}
 	c.Obs("unstartable_commands_reported", n)
 }
 
@@ -591,7 +621,7 @@ func init() {
 	core.Register(&core.Property{
 		ID:    "C14",
 		Level: "exploration",
-		Rule: "commands `vhelper emit` with planned output: stdout x stderr sizes from {0, 1, 4095, 4096, 65535, 65536, 65537, 200000, 1 MiB (, 4 MiB thorough)} in both orders, alternating chunks of 1 / 4096 / 65537 bytes, one stream closed before the other is written, random sequences of 1-8 chunks with sizes around 4 KiB / 64 KiB / 128 KiB on either stream with optional pauses and early closes (80 quick / 3000 thorough), text (with CR, LF, TAB) and binary content, InTotoRun with line normalisation on and off, exit statuses 0..255 (16 values), death by signals 1,2,6,9,11,13,15, run directory empty or a temp dir, program given relative to the run directory; through RunCommand, InTotoRun (by-products) and the CLI `run` (by-products in the link file); unstartable and empty commands; a quarter of the workers run with GOMAXPROCS=1. Oracle: streams regenerated from the seed and compared byte for byte, exact exit status; hang = causal witness (a thread of the child blocked in write(2) on fd 1/2, CPU time unchanged over 3 samples, call not returned; pid from the cmd_started hook), otherwise inconclusive. " +
+		Rule: "commands `vhelper emit` with planned output: stdout x stderr sizes from {0, 1, 4095, 4096, 65535, 65536, 65537, 200000, 1 MiB (, 4 MiB thorough)} in both orders, alternating chunks of 1 / 4096 / 65537 bytes, one stream closed before the other is written, random sequences of 1-8 chunks with sizes around 4 KiB / 64 KiB / 128 KiB on either stream with optional pauses and early closes (80 quick / 3000 thorough), text (with CR, LF, TAB) and binary content, InTotoRun with line normalisation on and off, exit statuses 0..255 (16 values), death by signals 1,2,6,9,11,13,15, run directory empty or a temp dir, program given relative to the run directory; through RunCommand, InTotoRun (by-products) and the CLI `run` (by-products in the link file); unstartable and empty commands (also an inspection with an empty run list through RunInspections); a quarter of the workers run with GOMAXPROCS=1. Oracle: streams regenerated from the seed and compared byte for byte, exact exit status; hang = causal witness (a thread of the child blocked in write(2) on fd 1/2, CPU time unchanged over 3 samples, call not returned; pid from the cmd_started hook), otherwise inconclusive. " +
 			"non-trivial = a stream exceeds one pipe buffer (64 KiB) or a non-zero status; distinct = (via, size classes, order, exit, signal, run dir)",
 		Assumptions: []string{"Linux x86-64 /proc/<pid>/task/*/syscall is readable (we run as root)", "for death by signal only 'not reported as success' is required"},
 		Workers:     func(string) int { return 16 },
